@@ -11,7 +11,8 @@ ID = "C09"
 TOL = 2e-5   # api-core derives per-attempt timeouts through datetime (microsecond resolution)
 
 PROFILE = grammar.profile(
-    p_service_config=1.0, p_sstream=0.25, p_cstream=0.0, p_bidi=0.0, p_lro=0.3, p_yaml=0.1, p_list=0.7,
+    p_service_config=1.0, p_sstream=0.25, p_cstream=0.0, p_bidi=0.0, p_lro=0.3, p_yaml=0.1, p_list=0.7, p_two_services=0.5,
+    p_same_method_two_services=0.7,
     transports=["grpc", "grpc", "grpc+rest"], p_custom=0.6, p_get=1.0)
 
 BUDGET = {
